@@ -6,12 +6,12 @@ EXTENDS Ingest, SequencesExt
 
 (* ---------------- tables (English language data) ---------------- *)
 T_CanonPfx == ("10" :> "Template:") @@ ("828" :> "Module:") @@ ("4" :> "Wiktionary:") @@ ("8" :> "MediaWiki:")
-              @@ ("100" :> "Appendix:")
+              @@ ("100" :> "Appendix:") @@ ("11" :> "Template talk:") @@ ("829" :> "Module talk:")
 \* other spellings of the prefixes (aliases of the language data, lower case)
 T_AliasPfx == ("10" :> "T:") @@ ("828" :> "MOD:") @@ ("4" :> "WT:") @@ ("100" :> "AP:")
 T_LowerPfx == ("10" :> "template:") @@ ("828" :> "module:") @@ ("4" :> "wiktionary:") @@ ("100" :> "appendix:")
 T_PfxNs == ("Template:" :> 10) @@ ("Module:" :> 828) @@ ("Wiktionary:" :> 4) @@ ("MediaWiki:" :> 8)
-           @@ ("Appendix:" :> 100)
+           @@ ("Appendix:" :> 100) @@ ("Template talk:" :> 11) @@ ("Module talk:" :> 829)
            @@ ("T:" :> 10) @@ ("MOD:" :> 828) @@ ("WT:" :> 4) @@ ("AP:" :> 100)
            @@ ("template:" :> 10) @@ ("module:" :> 828) @@ ("wiktionary:" :> 4) @@ ("appendix:" :> 100)
 T_UpperOf == ("z" :> "Z") @@ ("Z" :> "Z")
@@ -23,6 +23,7 @@ T_OkModels == {"wikitext", "Scribunto", "json"}
 DevIdeal == {}
 DevMain == {"MainPrefixStrippedOnAdd"}
 DevRed == {"RedirectTreatedAsTitle"}
+DevTalk == {"TalkReducedLikeSubject"}
 NoArgs == {}
 
 CONSTANTS MaxLen, Pool, Sels, Parts, Part
@@ -41,6 +42,14 @@ BaseOf(tk) ==
     [] tk = "sub" -> <<"Z", "ed", "/sub">>
     [] tk = "colon" -> <<"Z", "ed", ": x:y">>
     [] tk = "pfxlike" -> <<"Template", ":Zed">>
+    \* titles whose TEXT begins with / equals the name of a namespace without the page being in it
+    [] tk = "tword" -> <<"Template">>
+    [] tk = "twords" -> <<"Template", "s">>
+    [] tk = "twordx" -> <<"Template", "-based">>
+    [] tk = "ttalkword" -> <<"Template", " talk">>
+    [] tk = "tlower" -> <<"template", "s">>
+    [] tk = "mword" -> <<"Module">>
+    [] tk = "mwords" -> <<"Module", "s">>
     [] tk = "uni" -> <<"Ünï", "-çø𝔡é">>
     [] tk = "bang" -> <<"!">>
     [] tk = "eq" -> <<"=">>
@@ -151,6 +160,26 @@ RedTargetPages ==
 RedPages(srcs, wide) == UNION { {MkRed(s, t) : t \in TargetsOf(s, wide)} : s \in srcs }
 PoolRed == RedPages(RedSourcesQ, FALSE) \cup RedTargetPages
 PoolRedT == RedPages(RedSourcesT, TRUE) \cup RedTargetPages
+(* ---------------- title text x namespace x inclusion-control markup ---------------- *)
+\* The relation between the TEXT of a title and the names of the namespaces is a dimension of
+\* its own: talk namespaces whose name extends the name of their subject namespace
+\* ("Template talk:", "Module talk:"), and in every namespace titles that equal / begin with
+\* the word "Template" or "Module" ("Template", "Templates", "Template-based", "Template talk",
+\* "Template:Zed" as a main-namespace title, "Appendix:Templates", "Module:Template",
+\* "Template:Templates").  Crossed with every body carrying inclusion-control markup
+\* (noinclude / onlyinclude / includeonly / comment) and one plain body.  The demanded text is
+\* the written one everywhere except in the template namespace (Expected / TextsVerbatim).
+NameKinds == {"plain", "tword", "twords", "twordx", "ttalkword", "tlower", "pfxlike", "mword", "mwords"}
+NameNss == {0, 10, 11, 100, 828, 829}
+NameBodies == {"t1", "t2", "t3", "t4", "b1"}
+PoolNames ==
+  { MkPage(ns, tk, IF ns = 828 THEN "Scribunto" ELSE "wikitext", "none", b) :
+      ns \in NameNss, tk \in NameKinds, b \in NameBodies }
+\* pairs: the same word-like title in two namespaces / a talk page and its template in one dump
+PoolNamePairs ==
+  { MkPage(ns, tk, "wikitext", "none", b) : ns \in {0, 10, 11}, tk \in {"plain", "twords"}, b \in {"t1", "t2"} }
+SelsNames == { {0, 10, 11, 100, 828, 829} }
+SelsNamesT == { {0, 10, 11, 100, 828, 829}, {0, 10, 828}, {11, 829} }
 PoolQ == PoolCore
 PoolT == PoolCore \cup PoolTitles \cup PoolModels \cup PoolBodies \cup PoolDefaults
 PoolWide == PoolT
@@ -180,4 +209,8 @@ DemoSpec == DemoInit /\ [][INext]_ivars
 DemoRedDump == << MkRed(<<10, "plain", "wikitext">>, <<"canon", 0, "plain">>) >>
 DemoRedInit == IInit(DemoRedDump, {0, 10, 828})
 DemoRedSpec == DemoRedInit /\ [][INext]_ivars
+\* Demo (vacuity guard of TextsVerbatim): a page of the talk namespace of the templates with a noinclude section
+DemoTalkDump == << MkPage(11, "plain", "wikitext", "none", "t1") >>
+DemoTalkInit == IInit(DemoTalkDump, {0, 10, 11, 828})
+DemoTalkSpec == DemoTalkInit /\ [][INext]_ivars
 =============================================================================
